@@ -100,6 +100,9 @@ struct Harness
       cfg.ttlTickDuration = std::chrono::milliseconds(3600000);
       cfg.ttlTicksPerWheel = 256;
       cfg.ttlNumWheels = 2;
+      // steady_clock is frozen: a wait_for deadline is "start + interval" in frozen time but the kernel waits in real time, so an
+      // interval shorter than the life of this process would make the compaction thread spin once real time has passed it
+      cfg.compactionInterval = std::chrono::milliseconds(86400000);
     }
   }
 
@@ -209,7 +212,8 @@ struct Harness
              " write=" + std::to_string(g_nWrite.load()) + " open=" + std::to_string(g_nOpen.load()) + " rename=" +
              std::to_string(g_nRename.load()) + " truncate=" + std::to_string(g_nTrunc.load()) + " unlink=" +
              std::to_string(g_nUnlink.load()) + " sliced_waits=" + std::to_string(g_slicedWaits.load()) + " stress_reads=" +
-             std::to_string(g_stressReads.load());
+             std::to_string(g_stressReads.load()) + " max_plausible_ms=" + std::to_string(static_cast<long long>(KVStore::kMaxPlausibleEpochMs)) +
+             " tp_max_ms=" + std::to_string(static_cast<long long>(KVStore::toEpochMs(Clock::time_point::max())));
     }
     if (!store) return "bad-op";
     if (op == "now")
@@ -255,7 +259,7 @@ struct Harness
           {
             if (c == 0) store->set(keyOf(i), v);
             else if (c == 1) store->set(keyOf(i), v, std::chrono::seconds(1));
-            else if (c == 2) store->expireAt(keyOf(i), tpOfMs(g_wallMs.load() + static_cast<long long>((x >> 50) % 6)));
+            else if (c == 2) store->expireAt(keyOf(i), tpOfMs(std::min<long long>(g_wallMs.load() + static_cast<long long>((x >> 50) % 6), 9223372036854LL)));
             else if (c == 3) store->persist(keyOf(i));
             else if (c == 4) store->remove(keyOf(i));
             else if (c == 5) store->setBatch({{keyOf(i), v}, {keyOf((i + 1) % 4), std::vector<std::uint8_t>(64, static_cast<std::uint8_t>((((i + 1) % 4) << 5) | (n & 31)))}});
@@ -298,7 +302,8 @@ struct Harness
       auto t0 = std::chrono::steady_clock::now();
       while (std::chrono::steady_clock::now() - t0 < std::chrono::milliseconds(ms))
       {
-        g_wallMs += 1 + static_cast<long long>(seed % 3);
+        // (never past the last millisecond system_clock::time_point can hold: beyond it now() itself overflows)
+        if (g_wallMs.load() + 4 < 9223372036854LL) g_wallMs += 1 + static_cast<long long>(seed % 3);
         std::this_thread::sleep_for(std::chrono::milliseconds(1));
       }
       stop = true;
@@ -327,11 +332,16 @@ struct Harness
         return "ok | " + takeEvents();
       }
       if (op == "bigvalue")
-      { // bigvalue <key> <len> <byte>: a value too large for the line protocol (boundary witness; implementation-only cases)
+      { // bigvalue <key> <len> <byte> [ttl]: a value too large for the line protocol (boundary witness; implementation-only cases)
         unsigned long long len, fill;
-        if (t.size() != 4 || !vh::ofHex(t[1], k) || !vh::parseNat(t[2], len) || !vh::parseNat(t[3], fill) || fill > 255)
+        long long ttl = 0;
+        if ((t.size() != 4 && t.size() != 5) || !vh::ofHex(t[1], k) || !vh::parseNat(t[2], len) || !vh::parseNat(t[3], fill) || fill > 255 ||
+            (t.size() == 5 && !parseInt(t[4], ttl)))
           return "bad-op";
-        store->set(str(k), std::vector<std::uint8_t>(static_cast<size_t>(len), static_cast<std::uint8_t>(fill)));
+        if (t.size() == 5)
+          store->set(str(k), std::vector<std::uint8_t>(static_cast<size_t>(len), static_cast<std::uint8_t>(fill)), std::chrono::seconds(ttl));
+        else
+          store->set(str(k), std::vector<std::uint8_t>(static_cast<size_t>(len), static_cast<std::uint8_t>(fill)));
         takeEvents();
         return "ok";
       }
